@@ -39,6 +39,8 @@ def install(pkg, hook):
     kw = {'claw_is_pep526': bool(hook['pep526'])}
     if hook.get('violation'):
         kw['violation_type'] = C16Violation
+    if hook.get('skip'):
+        kw['claw_skip_package_names'] = (pkg + '.vend',)       # the vendored sub-package is left alone
     beartype_package(pkg, conf=BeartypeConf(**kw))
 
 
@@ -87,8 +89,9 @@ else:
 root = spec['root']
 files = {}
 for pkg in os.listdir(root):
-    d = os.path.join(root, pkg, '__pycache__')
-    if os.path.isdir(d):
-        files[pkg] = sorted(f for f in os.listdir(d) if f.startswith('mod.'))
+    for sub, key in (('', pkg), ('vend', pkg + '.vend')):
+        d = os.path.join(root, pkg, sub, '__pycache__')
+        if os.path.isdir(d):
+            files[key] = sorted(f for f in os.listdir(d) if f.startswith('mod.'))
 out['pyc'] = files
 print(json.dumps(out))
